@@ -285,6 +285,16 @@ class Sim:
         self.rng = SimRandom(R["rng"]["policy"], R["rng"]["seed"])
         self.packets = 0
         self.cur_label = None
+        # universes are capped by work packets; runs that use algorithms which are super-linear in
+        # the universe by design (forest minimisation, exhaustive 'smallest' search over packs that
+        # give a class several rules) get a smaller cap, so that the watchdog only ever sees real hangs
+        self.cap = PACKET_CAP
+        if R["config"]["ruledb"].startswith("forest"):
+            self.cap = 160
+        n_exp = sum(len(x.get("ds", [0])) for st in R["pack"]["expansion"] for x in st) + sum(1 for st in R["pack"]["initial"] if st["t"] in ("SplitZeros",))
+        wants_smallest = any(op[0] in ("auto", "get") and isinstance(op[1], dict) and op[1].get("smallest") for op in R["ops"])
+        if wants_smallest:
+            self.cap = min(self.cap, 120 if n_exp <= 1 else 45)
         self.forward_triples = []
         self.armed = None
         self.slice_packets = 0
@@ -343,7 +353,7 @@ class Sim:
             if self.record:
                 self.trace.append(("pkt", wp.label, ids, wp.inferral))
             self._q(lambda: self.qmon.on_packet(wp.label, ids, wp.inferral))
-            if self.packets > PACKET_CAP:
+            if self.packets > self.cap:
                 raise PacketCap()
             # scheduler decision: end the slice after this packet?
             b = self.budgets[0] if self.budgets else self.tail_budget
